@@ -188,7 +188,17 @@ example : channelHistory orders =
 /-- The regenerated orders are the ones the manager-level invariant is proved for. -/
 theorem orders_good : GoodOrders orders :=
   ⟨by decide, by decide, by decide, by decide, by decide, by decide, by decide, by decide, by decide, by decide,
-   by decide, by decide, by decide, by decide, by decide, by decide⟩
+   by decide, by decide, by decide, by decide, by decide, by decide, by decide, by decide, by decide⟩
+
+/-- The regenerated guards: the apply callbacks dispatch only a non-empty converted batch
+(`applyQts` always: its batch has no markers), the difference branches dispatch when any of new
+messages, new encrypted messages or own other-updates is present (channel: new messages or own),
+re-routing / handing over happens only for a non-empty rest. -/
+theorem dispatch_guards :
+    Facts.C02.applyPtsGuard = [3] ∧ Facts.C02.applyQtsGuard = [100] ∧ Facts.C02.chApplyPtsGuard = [3] ∧
+    Facts.C02.diffGuard = [0, 1, 2] ∧ Facts.C02.sliceGuard = [0, 1, 2] ∧ Facts.C02.chDiffGuard = [0, 2] ∧
+    Facts.C02.diffRerouteGuard = [4] ∧ Facts.C02.sliceRerouteGuard = [4] ∧ Facts.C02.chSendOutGuard = [4] := by
+  decide
 
 /-- **No update is lost, for the whole manager model.** Take any server world (log with distinct
 ids tiling every tracked sequence — `scnOK`), any persisted start, any number of tracked channels,
